@@ -158,3 +158,13 @@ func jsonFloat(id string) float64 {
 }
 
 func isNaN(f float64) bool { return f != f }
+
+func visible(s string) bool {
+	for i := 0; i < len(s); i++ {
+		if s[i] <= 0x20 || s[i] >= 0x7f {
+			return false
+		}
+	}
+	return true
+}
+
